@@ -407,7 +407,21 @@ let run_case idx flags dtd limit (text : n list) (out : Buffer.t) =
   | Panic s -> Printf.bprintf out "%s R mpanic %s\n" idx (site_name s)
   | OutOfFuel -> Printf.bprintf out "%s R mfuel\n" idx
 
+let summary_mode file =
+  let ic = open_in file in
+  (try
+     while true do
+       let line = input_line ic in
+       match String.split_on_char ' ' line with
+       | [idx; _; dtd; limit; hx] ->
+         let l = summary (bytes_of_hex hx) { allow_dtd = (dtd = "1"); nodes_limit = n_of_int (int_of_string limit) } in
+         Printf.printf "%s SUM%s\n" idx (String.concat "" (List.map (fun x -> " " ^ string_of_int (int_of_n x)) l))
+       | _ -> ()
+     done
+   with End_of_file -> ())
+
 let () =
+  if Array.length Sys.argv > 2 && Sys.argv.(1) = "summary" then (summary_mode Sys.argv.(2); exit 0);
   let file = Sys.argv.(1) in
   let ic = open_in file in
   let out = Buffer.create 65536 in
